@@ -477,7 +477,7 @@ def run(ctx):
         if i % ctx.nshards == ctx.shard:
             run_case(ctx, case, check, 'matrix', shrink, shr)
             ctx.stats.count('matrix_cells')
-    explore_cases(ctx, gen, check, {'quick': 40000, 'thorough': 300000}[ctx.tier], 'url', shrink)
+    explore_cases(ctx, gen, check, {'quick': 40000, 'thorough': 900000}[ctx.tier], 'url', shrink)
 
 
 def replay(witness):
